@@ -71,6 +71,29 @@ def mon_c09(world, kind):
             world.flag('record-for-unscheduled-instance', site,
                        {'app': world.tmpl[a], 'server': s,
                         'server_known': s in m.servers})
+    # the reference placement kept in the data of the /placement node (what
+    # treadmill.api.state serves as instance -> host)
+    import zlib
+    node = world.tree.find(z.PLACEMENT)
+    summary = None
+    if node is not None and node.data:
+        try:
+            summary = {row[0]: row[3]
+                       for row in json.loads(zlib.decompress(node.data).decode())}
+        except (ValueError, zlib.error, IndexError, TypeError):
+            summary = 'unreadable'
+    model = {a.name: a.server for a in cell.apps.values()}
+    if summary != model:
+        if summary == 'unreadable' or summary is None:
+            diff = summary
+        else:
+            diff = sorted(
+                (str(world.tmpl[n]), str(summary.get(n, '-')),
+                 str(model.get(n, '-')))
+                for n in set(summary) | set(model)
+                if summary.get(n, '-') != model.get(n, '-'))[:4]
+        world.flag('placement-summary-differs-from-model', site,
+                   {'summary_vs_model': diff})
     if placed:
         world.stats['c09_cycles_with_placed'] += 1
         world.stats['c09_records_compared'] += placed
